@@ -19,7 +19,7 @@ func sigOf(p *prog.Program) (string, bool) {
 			continue
 		}
 		r := op.Reg
-		s += fmt.Sprintf("[c%v a%v o%v s%v f%d p%d m%d]", r.Ctx, r.Async, r.Once, r.Seq, r.Filter, r.PanicKind, r.PanicMod)
+		s += fmt.Sprintf("[c%v a%v o%v s%v f%d p%d m%d r%v]", r.Ctx, r.Async, r.Once, r.Seq, r.Filter, r.PanicKind, r.PanicMod, r.Replay)
 		if r.PanicKind != 0 {
 			panicking = true
 			if r.Seq || r.Once || r.Async {
@@ -106,6 +106,7 @@ func TestC05(t *testing.T) {
 	pf := []prog.Profile{
 		{MinTypes: 1, MaxTypes: 3, MinOps: 10, MaxOps: 40, Async: true, Scripts: true, Panics: true},
 		{MinTypes: 1, MaxTypes: 2, MinOps: 8, MaxOps: 25, Async: true, Panics: true, FewClasses: true, Cancels: true},
+		{MinTypes: 1, MaxTypes: 3, MinOps: 10, MaxOps: 35, Async: true, Scripts: true, Panics: true, Store: true},
 	}
 	for i := 0; i < n; i++ {
 		p := prog.Gen(run.Rand(uint64(i)), h.Drivers, pf[i%len(pf)])
